@@ -291,20 +291,37 @@ func c14Launch(w *W) {
 	recs := []*wrec{}
 	launcher := &wrec{}
 	recs = append(recs, launcher)
+	// the context the work is launched with is not the waiters' context: it
+	// may have ended before the launch, or end while the workers are being
+	// started. Every goroutine that is started must still be accounted for, and
+	// every unit that was added must be started (the body ignores its context).
+	lctx, lcancel := context.WithCancel(w.Ctx)
+	switch simrt.Choose(4) {
+	case 0:
+		lcancel()
+		w.Fault("launch-context-already-cancelled")
+	case 1:
+		at := simrt.Choose(30)
+		simrt.Spawn("fault:cancel-launch-context", func() {
+			simrt.WaitStep(at)
+			lcancel()
+		})
+		w.Fault("launch-context-cancelled")
+	}
 	simrt.Spawn("launcher", func() {
 		switch mode {
 		case 0:
 			for i := 0; i < k; i++ {
-				wg.Launch(w.Ctx, body)
+				wg.Launch(lctx, body)
 			}
 		case 1:
-			wg.DoTimes(w.Ctx, k, body)
+			wg.DoTimes(lctx, k, body)
 		case 2:
 			for i := 0; i < k; i++ {
-				body.Add(w.Ctx, wg)
+				body.Add(lctx, wg)
 			}
 		case 3:
-			body.StartGroup(w.Ctx, wg, k)
+			body.StartGroup(lctx, wg, k)
 		}
 		launchedAt = h.Tick()
 		launcher.state = 1
@@ -351,5 +368,5 @@ func c14Launch(w *W) {
 func init() {
 	Register(&Workload{Prop: "C14", Name: "counter", MaxSteps: 6000, Run: c14Counter})
 	Register(&Workload{Prop: "C14", Name: "counter-faults", Faulty: true, MaxSteps: 6000, Run: c14Counter})
-	Register(&Workload{Prop: "C14", Name: "launch", MaxSteps: 6000, Run: c14Launch})
+	Register(&Workload{Prop: "C14", Name: "launch", Faulty: true, MaxSteps: 6000, Run: c14Launch})
 }
